@@ -43,6 +43,51 @@ def scenarios_for(label):
     return out
 
 
+def _crate_for(repo):
+    """the replay crate depends on /repo by path; for another repo path use a scratch manifest. -> (crate dir, tmp dir|None)"""
+    if os.path.abspath(repo) == "/repo":
+        return HERE, None
+    tmp = tempfile.mkdtemp(prefix="vx_replay_", dir=os.environ.get("TMPDIR", "/var/tmp"))
+    shutil.copytree(os.path.join(HERE, "src"), os.path.join(tmp, "src"))
+    man = open(os.path.join(HERE, "Cargo.toml")).read().replace('path = "/repo"', 'path = "%s"' % os.path.abspath(repo))
+    open(os.path.join(tmp, "Cargo.toml"), "w").write(man)
+    shutil.copy(os.path.join(HERE, "Cargo.lock"), tmp)
+    return tmp, tmp
+
+
+def explore(repo="/repo", seed=1, n=3000, features="test-utils,metrics", timeout=900):
+    """BOUNDED stand-in: run the schedule explorer (replay/src/explore.rs) against the real crate."""
+    crate, tmp = _crate_for(repo)
+    env = dict(os.environ, CARGO_TARGET_DIR=os.path.join(os.path.dirname(HERE), "build", "replay-target"), CARGO_NET_OFFLINE="true")
+    try:
+        p = subprocess.run(["cargo", "run", "--offline", "-q", "--features", features, "--manifest-path",
+                            os.path.join(crate, "Cargo.toml"), "--", "explore", str(seed), str(n)],
+                           capture_output=True, text=True, timeout=timeout, env=env)
+    except subprocess.TimeoutExpired:
+        return {"ran": True, "explored": 0, "violating": [], "hang": True,
+                "note": "explorer did not terminate within %d s (a scenario hangs on this tree)" % timeout}
+    finally:
+        if tmp:
+            shutil.rmtree(tmp, ignore_errors=True)
+    out = {"ran": False, "explored": 0, "violating": [], "bound": "15 curated + %d seeded-random schedules (seed %d): <=5 client ops, capacity<=3, paused clock" % (n, seed)}
+    for line in p.stdout.splitlines():
+        line = line.strip()
+        if not line.startswith("{"):
+            continue
+        try:
+            d = json.loads(line)
+        except ValueError:
+            continue
+        if "explored" in d:
+            out["ran"] = True; out["explored"] = d["explored"]
+        elif "violations" in d:
+            out["violating"].append(d)
+    if not out["ran"]:
+        out["note"] = "explorer failed to build/run on this tree: " + p.stderr[-1500:]
+        out["build_failed"] = p.returncode != 0 and "error" in p.stderr
+    return out
+
+
 def run_for_label(pid, label, repo="/repo"):
     sc = scenarios_for(label)
     if not sc:
